@@ -102,3 +102,8 @@ Definition fpow (v f : float) : float :=
 
 Definition LinF : Space := LinSpace FNum fpow.
 Definition LogF : Space := LogSpace FNum neg_infinity fexp flog.
+
+(** compact exact float literals for the harness: [fl m e] = m * 2^(e - 2101), m < 2^53
+    (Coq parses integer literals several times faster than hexadecimal float literals) *)
+Definition fl (m e : int) : float := PrimFloat.ldshiftexp (PrimFloat.of_uint63 m) e.
+Definition nfl (m e : int) : float := PrimFloat.opp (fl m e).
